@@ -189,6 +189,11 @@ Run(D, K, loc, atStart, fuel) ==
            [] s.k = "comment" -> Run(D, K1, loc, atStart, fuel - 1)     \* no effect, not an action
            \* `n = cohdl.always(E)`: concurrent logic; n is bound for the whole context (see AlwaysBinds), nothing is executed here
            [] s.k = "always" -> Run(D, K1, loc, atStart, fuel - 1)
+           \* a documented precondition of a library component, stated in a reference description: inputs that violate it are
+           \* outside the property (the step is "undefined" and not compared)
+           [] s.k = "assume" -> LET c == CondHolds(s.c, loc) IN
+                                IF c = "t" THEN Run(D, K1, loc, atStart, fuel - 1)
+                                ELSE [K |-> K, loc |-> [loc EXCEPT !.err = IF c = "f" THEN "undefined" ELSE c]]
            [] s.k = "bind" ->
                 LET v == CEval(s.e, ReadEnv(loc)) IN
                 IF CIsErr(v) THEN [K |-> K, loc |-> [loc EXCEPT !.err = v.v]]
